@@ -320,14 +320,14 @@ Lemma group_by_package_distinct : forall ss, NoDup (map s_pkg ss) ->
   group_by_package ss = map (fun s => (s_pkg s, [s])) ss.
 Proof. intros. unfold group_by_package. rewrite fold_group_add_distinct; auto. Qed.
 
-Theorem input_order_irrelevant_proof : forall ss ss' ord ord',
+Theorem map_order_input_order_irrelevant_proof : forall ss ss' ord ord',
   NoDup (map s_pkg ss) -> Permutation ss ss' ->
   (forall l, Permutation (ord l) l) -> (forall l, Permutation (ord' l) l) ->
-  is_ok (consolidate ord ss) = is_ok (consolidate ord' ss') /\
-  forall r, consolidate ord ss = Ok r ->
-    exists r', consolidate ord' ss' = Ok r' /\ Permutation r r' /\ forall pkg, locate r pkg = locate r' pkg.
+  is_ok (consolidate_map_order ord ss) = is_ok (consolidate_map_order ord' ss') /\
+  forall r, consolidate_map_order ord ss = Ok r ->
+    exists r', consolidate_map_order ord' ss' = Ok r' /\ Permutation r r' /\ forall pkg, locate r pkg = locate r' pkg.
 Proof.
-  intros ss ss' ord ord' Hnd Hp Ho Ho'. unfold consolidate.
+  intros ss ss' ord ord' Hnd Hp Ho Ho'. unfold consolidate_map_order.
   assert (Hnd' : NoDup (map s_pkg ss')) by (eapply Permutation_NoDup; [apply Permutation_map; exact Hp|auto]).
   rewrite !group_by_package_distinct by assumption.
   set (G := fun s : schema => (s_pkg s, [s])).
@@ -372,16 +372,16 @@ Qed.
 
 (* adding an input whose package no other input defines leaves every other package's schema
    exactly as it was (whatever iteration orders are drawn before and after) *)
-Theorem unreferenced_input_irrelevant_proof : forall ss x ord ord',
+Theorem map_order_unreferenced_input_irrelevant_proof : forall ss x ord ord',
   NoDup (map s_pkg (ss ++ [x])) ->
   (forall l, Permutation (ord l) l) -> (forall l, Permutation (ord' l) l) ->
-  forall r', consolidate ord' (ss ++ [x]) = Ok r' ->
-  exists r, consolidate ord ss = Ok r /\ forall pkg, pkg <> s_pkg x -> locate r pkg = locate r' pkg.
+  forall r', consolidate_map_order ord' (ss ++ [x]) = Ok r' ->
+  exists r, consolidate_map_order ord ss = Ok r /\ forall pkg, pkg <> s_pkg x -> locate r pkg = locate r' pkg.
 Proof.
   intros ss x ord ord' Hnd Ho Ho' r' Hr'.
   assert (HndS : NoDup (map s_pkg ss)).
   { rewrite map_app in Hnd. simpl in Hnd. apply NoDup_snoc_inv in Hnd. exact Hnd. }
-  unfold consolidate in *. rewrite group_by_package_distinct in * by assumption.
+  unfold consolidate_map_order in *. rewrite group_by_package_distinct in * by assumption.
   set (G := fun s : schema => (s_pkg s, [s])) in *.
   (* bring the run with x to the canonical order  (map G ss) ++ [G x] *)
   assert (HP : Permutation (ord' (map G (ss ++ [x]))) (map G ss ++ [G x])).
@@ -411,12 +411,83 @@ Qed.
 Definition ex_schema (p : string) : schema :=
   mkSchema p {| m_kind := "" ; m_variant := "" ; m_identifier := "" |} "" ty_zero [].
 
-Theorem consolidate_order_refuted_proof :
+Theorem consolidate_map_order_refuted_proof :
   exists ss ord ord', (forall l, Permutation (ord l) l) /\ (forall l, Permutation (ord' l) l) /\
-    consolidate ord ss <> consolidate ord' ss.
+    consolidate_map_order ord ss <> consolidate_map_order ord' ss.
 Proof.
   exists [ex_schema "a"; ex_schema "b"], (fun l => l), (@rev _). repeat split.
   - intros; apply Permutation_refl.
   - intros; apply Permutation_sym, Permutation_rev.
   - vm_compute. discriminate.
+Qed.
+
+(* ------------------------------------------------------------------ the CURRENT Consolidate *)
+Lemma consolidate_is_map_order_id : forall ss, consolidate ss = consolidate_map_order (fun l => l) ss.
+Proof. reflexivity. Qed.
+
+Lemma group_add_nonempty : forall g s, Forall (fun pg => snd pg <> []) g -> Forall (fun pg => snd pg <> []) (group_add g s).
+Proof.
+  induction g as [|[p l] g IH]; simpl; intros s H.
+  - constructor; [discriminate|constructor].
+  - inversion H; subst. destruct (seqb p (s_pkg s)).
+    + constructor; auto. simpl. destruct l; discriminate.
+    + constructor; auto.
+Qed.
+Lemma group_by_package_nonempty : forall ss, Forall (fun pg => snd pg <> []) (group_by_package ss).
+Proof.
+  unfold group_by_package. intros ss.
+  assert (forall g, Forall (fun pg => snd pg <> []) g -> Forall (fun pg : string * list schema => snd pg <> []) (fold_left group_add ss g)) as X.
+  { induction ss; simpl; intros; auto. apply IHss. now apply group_add_nonempty. }
+  apply X. constructor.
+Qed.
+
+(* the packages come out in order of first appearance; for inputs of pairwise different packages:
+   in input order *)
+Theorem consolidate_result_order_proof : forall ss r, consolidate ss = Ok r ->
+  map s_pkg r = map fst (group_by_package ss) /\
+  (NoDup (map s_pkg ss) -> map s_pkg r = map s_pkg ss).
+Proof.
+  intros ss r H. unfold consolidate in H. split.
+  - apply consolidate_seq_pkgs; auto. apply group_by_package_nonempty.
+  - intros Hnd. rewrite (consolidate_seq_pkgs _ _ H (group_by_package_nonempty ss)).
+    rewrite group_by_package_distinct by assumption. rewrite map_map. reflexivity.
+Qed.
+
+(* permuting inputs of pairwise different packages: same accept/reject, every per-package schema
+   unchanged, the returned list is the corresponding permutation (and nothing else changes) *)
+Theorem input_order_irrelevant_proof : forall ss ss',
+  NoDup (map s_pkg ss) -> Permutation ss ss' ->
+  is_ok (consolidate ss) = is_ok (consolidate ss') /\
+  forall r, consolidate ss = Ok r ->
+    exists r', consolidate ss' = Ok r' /\ Permutation r r' /\ (forall pkg, locate r pkg = locate r' pkg) /\
+               map s_pkg r = map s_pkg ss /\ map s_pkg r' = map s_pkg ss'.
+Proof.
+  intros ss ss' Hnd Hp.
+  destruct (map_order_input_order_irrelevant_proof ss ss' (fun l => l) (fun l => l) Hnd Hp
+              (fun l => Permutation_refl l) (fun l => Permutation_refl l)) as [H1 H2].
+  split; [exact H1|]. intros r Hr. destruct (H2 r Hr) as [r' [Hr' [Hpr Hl]]].
+  exists r'. repeat split; auto.
+  - apply (consolidate_result_order_proof ss r Hr); auto.
+  - apply (consolidate_result_order_proof ss' r' Hr').
+    eapply Permutation_NoDup; [apply Permutation_map; exact Hp|exact Hnd].
+Qed.
+
+(* adding an input whose package no other input defines: the result is the old result, unchanged
+   and in the same order, followed by the new package's schema *)
+Theorem unreferenced_input_irrelevant_proof : forall ss x r',
+  NoDup (map s_pkg (ss ++ [x])) -> consolidate (ss ++ [x]) = Ok r' ->
+  exists r y, consolidate ss = Ok r /\ r' = r ++ [y] /\ s_pkg y = s_pkg x /\
+              forall pkg, pkg <> s_pkg x -> locate r pkg = locate r' pkg.
+Proof.
+  intros ss x r' Hnd Hr'.
+  assert (HndS : NoDup (map s_pkg ss)).
+  { rewrite map_app in Hnd. simpl in Hnd. apply NoDup_snoc_inv in Hnd. exact Hnd. }
+  pose proof (consolidate_result_order_proof _ _ Hr') as [_ Hord]. specialize (Hord Hnd).
+  unfold consolidate in *. rewrite group_by_package_distinct in * by assumption.
+  rewrite map_app in Hr'. simpl in Hr'.
+  destruct (consolidate_seq_app_inv _ _ _ Hr') as [r [y [H0 [Hy ->]]]].
+  exists r, y. split; [exact H0|]. split; [reflexivity|].
+  assert (Hy' : s_pkg y = s_pkg x).
+  { rewrite !map_app in Hord. simpl in Hord. apply app_inj_tail in Hord. tauto. }
+  split; [exact Hy'|]. intros pkg Hne. rewrite locate_app_other by congruence. reflexivity.
 Qed.
